@@ -173,6 +173,7 @@ def addResource (m : MMap) (id : Nat) (name : Name) (size : Nat) (addr : Option 
     (alignment : Option Nat) : Option (MMap × Nat × Nat) :=
   if m.frozen then none
   else if m.resIds.contains id then none
+  else if name.isEmpty then none                       -- `MemoryMap.Name(name)` raises TypeError
   else if !available m.names [name] then none
   else
     let al := match alignment with | some a => max a m.al | none => m.al
@@ -193,6 +194,7 @@ def addWindow (m : MMap) (h : Nat) (child : MMap) (name : Option Name) (addr : O
   else if child.dw > m.dw then none
   else if child.dw != m.dw && sparse.isNone then none
   else if child.dw != m.dw && sparse == some false && m.dw % child.dw != 0 then none
+  else if name == some [] then none                    -- `MemoryMap.Name(name)` raises TypeError
   else
     let queries := match name with | none => child.names | some n => [n]
     if !available m.names queries then none
